@@ -70,6 +70,7 @@ type seqRun struct {
 	crossRenames int      // successful renames between two different directories
 	lastStatus   nfstypes.Nfsstat3
 	dumpFiles    [][]byte // handles of the regular files the last dumpTree saw
+	probeBlocks  int      // size of the file the post-crash probe writes
 }
 
 // fsckPoint dumps the logical disk for the structure checker: background freeing finished,
